@@ -634,3 +634,148 @@ Section HKProofs.
       [exists true; exact H|exists false; exact H|exfalso; apply Hnf; exact H].
   Qed.
 End HKProofs.
+
+(* ---------- DFA.__eq__ ---------- *)
+Lemma same_syms_iff A B : same_syms A B = true -> forall a, In a (d_syms A) <-> In a (d_syms B).
+Proof.
+  unfold same_syms. rewrite andb_true_iff, !subsetb_incl. intros [H1 H2] a. split; [apply H1|apply H2].
+Qed.
+
+Section DFAHK.
+  Variables A B : dfa.
+  Hypothesis HA : valid_dfa A = true.
+  Hypothesis HB : valid_dfa B = true.
+  Variable tie : option nat + option nat -> option nat + option nat -> bool.
+  Variable syms : list nat.
+  Hypothesis Hs : forall a, In a syms <-> In a (d_syms A).
+
+  Theorem hk_eq_gen_spec : same_syms A B = true ->
+    exists b, hk_eq_gen tie syms A B = Ok b /\ (b = true <-> L_dfa A =L L_dfa B).
+  Proof.
+    intro Hsy. unfold hk_eq_gen, guard_syms. rewrite Hsy.
+    destruct (hk_run_fuel _ _ _ _ (eqb_opt_ok _ eqb_nat_ok) (eqb_opt_ok _ eqb_nat_ok)
+                (ostep A) (ostep B) (ofinal A) (ofinal B) tie syms (Some (d_init A)) (Some (d_init B))
+                (ostates A) (ostates B) (hk_fuel A B)) as [b Hb].
+    - apply ostates_closed; exact HA.
+    - apply ostates_closed; exact HB.
+    - apply ostates_init; exact HA.
+    - apply ostates_init; exact HB.
+    - unfold hk_fuel, ostates. simpl. rewrite !map_length. lia.
+    - exists b. split; [exact Hb|].
+      rewrite (hk_run_sound _ _ _ _ (eqb_opt_ok _ eqb_nat_ok) (eqb_opt_ok _ eqb_nat_ok) _ _ _ _ _ _ _ _ _ _ Hb).
+      unfold same_language. split.
+      + intros H w. unfold L_dfa.
+        destruct (over_or_foreign syms w) as [Ho|[u [a [v [-> Ha]]]]].
+        * specialize (H w Ho). rewrite !fold_ostep in H. unfold dfa_acc, dfa_acc_from. rewrite H. tauto.
+        * assert (HaA : ~ In a (d_syms A)) by (rewrite <- Hs; exact Ha).
+          assert (HaB : ~ In a (d_syms B)) by (rewrite <- (same_syms_iff A B Hsy); exact HaA).
+          rewrite (dfa_foreign_symbol_rejects A HA u a v HaA), (dfa_foreign_symbol_rejects B HB u a v HaB). tauto.
+      + intros HL w _. rewrite !fold_ostep. apply bool_eq_iff. apply (HL w).
+  Qed.
+
+  (* the mirror model and the specification model are the same function of the operands *)
+  Theorem hk_eq_gen_eq_m : hk_eq_gen tie syms A B = eq_m A B.
+  Proof.
+    destruct (same_syms A B) eqn:Hsy.
+    - destruct (hk_eq_gen_spec Hsy) as [b [E H]]. destruct (eq_spec A B HA HB Hsy) as [b' [E' H']].
+      rewrite E, E'. f_equal. apply bool_eq_iff. rewrite H, H'. tauto.
+    - unfold hk_eq_gen, eq_m, guard_syms. rewrite Hsy. reflexivity.
+  Qed.
+End DFAHK.
+
+Theorem hk_eq_eq_m A B : valid_dfa A = true -> valid_dfa B = true -> hk_eq A B = eq_m A B.
+Proof. intros HA HB. apply hk_eq_gen_eq_m; [exact HA|exact HB|tauto]. Qed.
+
+(* ---------- NFA.__eq__ ---------- *)
+Lemma nsame_syms_iff A B : nsame_syms A B = true -> forall a, In a (n_syms A) <-> In a (n_syms B).
+Proof.
+  unfold nsame_syms. rewrite andb_true_iff, !subsetb_incl. intros [H1 H2] a. split; [apply H1|apply H2].
+Qed.
+
+Section NFAFinal.
+  Variable m : nfa.
+  Hypothesis Hv : valid_nfa m = true.
+
+  Lemma subset_run_incl w : forall S, incl S (n_states m) -> incl (fold_left (nset_step m) w S) (n_states m).
+  Proof.
+    induction w as [|a w IH]; intros S HS; simpl; [exact HS|]. apply IH. apply nset_step_incl. exact Hv.
+  Qed.
+
+  (* is_final_state of NFA.__eq__ on the subset states the loop can meet *)
+  Lemma nset_final_cl_run w :
+    nset_final_cl m (fold_left (nset_step m) w (nset_init m)) = nfa_acc m w.
+  Proof.
+    unfold nfa_acc. set (S := fold_left (nset_step m) w (nset_init m)).
+    assert (HS : incl S (n_states m)).
+    { apply subset_run_incl. intros x Hx. eapply eclose_in_states; [exact Hv|apply init_in_states; exact Hv|exact Hx]. }
+    destruct (subset_run_spec m Hv w) as [_ Hrun]. fold S in Hrun.
+    apply bool_eq_iff. rewrite (nset_final_spec m). unfold nset_final_cl. rewrite existsb_exists. split.
+    - intros [q [Hq H]]. apply existsb_exists in H. destruct H as [p [Hp Hf]]. apply memb_In in Hf.
+      exists p. split; [|exact Hf]. apply Hrun.
+      apply (eclose_spec m Hv q (HS q Hq)) in Hp.
+      rewrite <- (app_nil_r w). eapply nfa_path_app; [apply Hrun; exact Hq|exact Hp].
+    - intros [q [Hq Hf]]. exists q. split; [exact Hq|]. apply existsb_exists. exists q.
+      split; [|apply memb_In; exact Hf]. apply (eclose_spec m Hv q (HS q Hq)). apply np_refl.
+  Qed.
+End NFAFinal.
+
+Section NFAHK.
+  Variables A B : nfa.
+  Hypothesis HA : valid_nfa A = true.
+  Hypothesis HB : valid_nfa B = true.
+  Variable tie : list nat + list nat -> list nat + list nat -> bool.
+  Variable syms : list nat.
+  Hypothesis Hs : forall a, In a syms <-> In a (n_syms A).
+
+  (* for every fuel: when the model returns, the boolean is language equality *)
+  Theorem nfa_hk_sound b : nfa_hk_eq_gen tie syms A B = Ok b -> (b = true <-> L_nfa A =L L_nfa B).
+  Proof.
+    unfold nfa_hk_eq_gen. destruct (nsame_syms A B) eqn:Hsy; [|discriminate]. intro Hb.
+    rewrite (hk_run_sound _ _ _ _ (eqb_list_ok _ eqb_nat_ok) (eqb_list_ok _ eqb_nat_ok) _ _ _ _ _ _ _ _ _ _ Hb).
+    unfold same_language. split.
+    - intros H w. rewrite <- (nfa_acc_spec A HA), <- (nfa_acc_spec B HB).
+      destruct (over_or_foreign syms w) as [Ho|[u [a [v [-> Ha]]]]].
+      + specialize (H w Ho). rewrite (nset_final_cl_run A HA), (nset_final_cl_run B HB) in H. rewrite H. tauto.
+      + assert (HaA : ~ In a (n_syms A)) by (rewrite <- Hs; exact Ha).
+        assert (HaB : ~ In a (n_syms B)) by (rewrite <- (nsame_syms_iff A B Hsy); exact HaA).
+        rewrite (nfa_acc_spec A HA), (nfa_acc_spec B HB). split; intro H'; exfalso.
+        * apply (nfa_foreign_rejects A HA u a v HaA H').
+        * apply (nfa_foreign_rejects B HB u a v HaB H').
+    - intros HL w _. rewrite (nset_final_cl_run A HA), (nset_final_cl_run B HB). apply bool_eq_iff.
+      rewrite (nfa_acc_spec A HA), (nfa_acc_spec B HB). apply HL.
+  Qed.
+
+  Theorem nfa_hk_total : nsame_syms A B = true -> length (n_states A) + length (n_states B) <= 14 ->
+    exists b, nfa_hk_eq_gen tie syms A B = Ok b.
+  Proof.
+    intros Hsy Hsz. unfold nfa_hk_eq_gen. rewrite Hsy.
+    apply (hk_run_fuel _ _ _ _ (eqb_list_ok _ eqb_nat_ok) (eqb_list_ok _ eqb_nat_ok) _ _ _ _ _ _ _ _
+             (nuniverse A) (nuniverse B)).
+    - apply nuniverse_closed; exact HA.
+    - apply nuniverse_closed; exact HB.
+    - apply nuniverse_init; exact HA.
+    - apply nuniverse_init; exact HB.
+    - unfold nfa_hk_fuel. apply Nat.leb_le in Hsz. rewrite Hsz.
+      pose proof (nuniverse_length A). pose proof (nuniverse_length B). lia.
+  Qed.
+
+  (* whenever both models return they return the same boolean ... *)
+  Theorem nfa_hk_agrees b b' : nfa_hk_eq_gen tie syms A B = Ok b -> nfa_eq_m A B = Ok b' -> b = b'.
+  Proof.
+    intros E E'. apply bool_eq_iff. rewrite (nfa_hk_sound b E), (nfa_eq_sound A B HA HB b' E'). tauto.
+  Qed.
+
+  (* ... and within the size bound under which nfa_eq_m is known to return they are equal outright *)
+  Theorem nfa_hk_eq_gen_nfa_eq_m : length (n_states A) + length (n_states B) <= 14 ->
+    nfa_hk_eq_gen tie syms A B = nfa_eq_m A B.
+  Proof.
+    intro Hsz. destruct (nsame_syms A B) eqn:Hsy.
+    - destruct (nfa_hk_total Hsy Hsz) as [b E]. destruct (nfa_eq_total A B HA HB Hsy Hsz) as [b' E'].
+      rewrite E, E'. f_equal. exact (nfa_hk_agrees b b' E E').
+    - unfold nfa_hk_eq_gen, nfa_eq_m. rewrite Hsy. reflexivity.
+  Qed.
+End NFAHK.
+
+Theorem nfa_hk_eq_nfa_eq_m A B : valid_nfa A = true -> valid_nfa B = true ->
+  length (n_states A) + length (n_states B) <= 14 -> nfa_hk_eq A B = nfa_eq_m A B.
+Proof. intros HA HB Hsz. apply nfa_hk_eq_gen_nfa_eq_m; [exact HA|exact HB|tauto|exact Hsz]. Qed.
